@@ -252,6 +252,9 @@ func exponent(a, b interface{}) float64 {
 }
 
 func makeRange(min, max int) []int {
+	if max < min {
+		return []int{}
+	}
 	size := max - min + 1
 	if size <= 0 {
 		return []int{}
